@@ -19,8 +19,18 @@ impl TemplateLibrary {
         let mut templates = HashMap::new();
 
         let mut elem_id = 0;
+        // As in `ProgramArchive::new`, files are visited in file ID order and the first
+        // definition of a name is the one that is kept.
+        let mut library_contents: Vec<(FileID, Vec<Definition>)> =
+            library_contents.into_iter().collect();
+        library_contents.sort_by_key(|(file_id, _)| *file_id);
         for (file_id, file_contents) in library_contents {
             for definition in file_contents {
+                if functions.contains_key(&definition.name())
+                    || templates.contains_key(&definition.name())
+                {
+                    continue;
+                }
                 match definition {
                     Definition::Function { name, args, arg_location, body, .. } => {
                         functions.insert(
